@@ -87,8 +87,12 @@ fn run_early(sc: &Value) {
     static EARLY_CALLS: std::sync::atomic::AtomicU64 = std::sync::atomic::AtomicU64::new(0);
     static EARLY_BAD: std::sync::atomic::AtomicU64 = std::sync::atomic::AtomicU64::new(0);
     static ARMED: std::sync::atomic::AtomicBool = std::sync::atomic::AtomicBool::new(false);
+    let orig: [u8; 5] = unsafe { *(target as *const [u8; 5]) };
     *crate::interpose::FLUSH_HOOK.lock().unwrap() = Some(Box::new(move |s, e| {
-        if s <= target && target < e && ARMED.swap(false, SeqCst) {
+        // the first flush that covers the entry AFTER the entry has been rewritten (a flush of the same range that comes
+        // earlier, whatever a future version may add, is not the moment)
+        let patched = unsafe { *(target as *const [u8; 5]) } != orig;
+        if s <= target && target < e && patched && ARMED.swap(false, SeqCst) {
             let r = std::thread::spawn(|| catch_unwind(|| std::hint::black_box(pool::tb1 as fn(u32) -> bool)(1))).join();
             EARLY_CALLS.fetch_add(1, SeqCst);
             if !matches!(r, Ok(Ok(true))) {
